@@ -357,6 +357,80 @@ fn cmd_stage_trace(args: &[String]) {
     }
 }
 
+/// detleak <jobs.ndjson> <out.ndjson>: wide-width privacy phase of C03 (spec/DetLeakTrace.tla).
+/// job {id, name, prog, owners, outs, mode, observer, inputs_a, inputs_b, runs, seed}: inputs_a / inputs_b differ only in
+/// private inputs of parties other than the observer, and the observer is not an output party.  For each of the two input
+/// vectors the compiled graph is run `runs` times as three parties with the observer's randomness (own draws, the keys it
+/// receives) fixed and everybody else's fresh; the record lists, per node of the observer's store, the number of distinct
+/// values over the A runs, over the B runs, and whether the first A value equals the first B value.
+fn cmd_detleak(args: &[String]) {
+    use cc_conform::detleak::{known_keys, run_observed, value_bytes};
+    let jobs = read_jobs(&args[0]);
+    let mut out = std::io::BufWriter::new(std::fs::File::create(&args[1]).unwrap());
+    cc_conform::quiet_panics();
+    for job in jobs {
+        let res = cc_conform::catch(std::panic::AssertUnwindSafe(|| -> ciphercore_base::errors::Result<Json> {
+            let c = prog::build_context(&job["prog"])?;
+            let src = c.get_main_graph()?;
+            let in_nodes = compile::inputs_of(&src);
+            let parse = |key: &str| -> ciphercore_base::errors::Result<Vec<ciphercore_base::data_values::Value>> {
+                let mut inputs = vec![];
+                for (n, v) in in_nodes.iter().zip(job[key].as_array().unwrap().iter()) {
+                    inputs.push(export::json_value(v, &n.get_type()?)?);
+                }
+                Ok(inputs)
+            };
+            let (ia, ib) = (parse("inputs_a")?, parse("inputs_b")?);
+            let owners: Vec<_> = job["owners"].as_array().unwrap().iter().map(compile::io_status).collect();
+            let outs: Vec<_> = job["outs"].as_array().unwrap().iter().map(compile::io_status).collect();
+            let r = compile::compile(&c, &owners, &outs, job["mode"].as_str().unwrap())?;
+            let g = r.mapped.get_context().get_main_graph()?;
+            let obs = job["observer"].as_u64().unwrap() as usize;
+            let runs = job["runs"].as_u64().unwrap();
+            let seed = job["seed"].as_u64().unwrap();
+            let fixed = known_keys(&g, &owners, &ia, obs, seed)?;
+            let n = g.get_nodes().len();
+            let mut seen: [Vec<std::collections::HashSet<Vec<u8>>>; 2] = [vec![Default::default(); n], vec![Default::default(); n]];
+            let mut first: [Vec<Vec<u8>>; 2] = [vec![vec![]; n], vec![vec![]; n]];
+            for (side, inputs) in [&ia, &ib].iter().enumerate() {
+                for k in 0..runs {
+                    let run = run_observed(&g, &owners, inputs, obs, seed, seed.wrapping_mul(1000003).wrapping_add(17 + k + 1000 * side as u64), &fixed)?;
+                    for (i, v) in run.store.iter().enumerate() {
+                        let mut b = vec![];
+                        match v {
+                            Some(v) => value_bytes(v, &mut b),
+                            None => b.push(255),
+                        }
+                        if k == 0 {
+                            first[side][i] = b.clone();
+                        }
+                        seen[side][i].insert(b);
+                    }
+                }
+            }
+            let nodes = g.get_nodes();
+            let mut per = vec![];
+            let mut flagged = vec![];
+            for i in 0..n {
+                let same = first[0][i] == first[1][i];
+                per.push(json!([seen[0][i].len(), seen[1][i].len(), if same { 1 } else { 0 }]));
+                if seen[0][i].len() == 1 && seen[1][i].len() == 1 && !same {
+                    flagged.push(json!({"node": i, "op": format!("{}", nodes[i].get_operation()),
+                        "sends": nodes[i].get_annotations()?.iter().map(|a| format!("{:?}", a)).collect::<Vec<_>>()}));
+                }
+            }
+            Ok(json!({"id": job["id"], "name": job["name"], "observer": obs, "runs": runs,
+                "owners": job["owners"].as_array().unwrap().iter().map(owner_str).collect::<Vec<_>>(), "outs": job["outs"], "mode": job["mode"],
+                "nodes": n, "known_keys": fixed.len(), "per": per, "flagged": flagged}))
+        }));
+        match res {
+            Ok(Ok(rec)) => writeln!(out, "{}", rec).unwrap(),
+            Ok(Err(e)) => eprintln!("job {}: error: {}", job["id"], e),
+            Err(p) => eprintln!("job {}: PANIC {}", job["id"], p),
+        }
+    }
+}
+
 fn main() {
     let args: Vec<String> = std::env::args().skip(1).collect();
     if args.is_empty() {
@@ -369,6 +443,7 @@ fn main() {
         "optimize-cases" => cmd_optimize_cases(&args[1..]),
         "run3" => cmd_run3(&args[1..]),
         "stage-trace" => cmd_stage_trace(&args[1..]),
+        "detleak" => cmd_detleak(&args[1..]),
         c => {
             eprintln!("unknown command {c}");
             std::process::exit(2);
